@@ -17,7 +17,7 @@ From Coq Require Import List NArith Bool Lia PeanoNat Sorting.Sorted.
 From XmlRs Require Import Base.CPred.
 From XmlRs Require Import Model.XPathAst Model.XDoc Model.XPathEval Spec.XPath10.
 From XmlRs Require Import Proofs.XPathNav Proofs.XPathAstPred Proofs.XPathCanon Proofs.XPathRefine
-  Proofs.XPathRefinePaths Proofs.XPathTreeOnly.
+  Proofs.XPathRefinePaths Proofs.XPathRefineSupp Proofs.XPathRefineEval Proofs.XPathTreeOnly.
 From XmlRs Require Import Model.Store Model.StoreView Model.DomOps
   Proofs.DomTree Proofs.DomOpsInv Proofs.DomOrder Proofs.DomOrderInv
   Proofs.StoreViewBase Proofs.StoreViewWalk Proofs.StoreXDoc Proofs.StoreXDocShape Proofs.StoreXDocNames.
@@ -275,4 +275,66 @@ Proof.
   - apply bridge_docinv; assumption.
   - apply bridge_shape; assumption.
   - apply bridge_parents; assumption.
+Qed.
+
+(** ** all supported expressions (C05 in full, Proofs/XPathRefineEval.v) *)
+
+(** C05 on the edited document: for every supported expression the evaluator returns on the table
+    of the edited document the value XPath 1.0 prescribes for its tree (and fails exactly when
+    XPath 1.0 says the expression is in error) *)
+Theorem edited_eval_refines_spec F merged init ops k s :
+  WGood init -> doc_at (run init ops) k = Some s ->
+  doc_element s <> None -> doc_decl s = None ->
+  forall (c : ctx) (e : expr), ns_lookup (c_ns c) None = None -> supported (c_ns c) e ->
+    value_abs (fst (query (xdoc_of_store F merged s) e c)) =
+    spec_query (xdoc_of_store F merged s) (c_ns c) (get_position c) (get_size c) e.
+Proof.
+  intros Hi Hd He Hdt c e Hns Hsup.
+  destruct (bridge_reachable F merged init ops k s Hi Hd He) as [Hinv [Hsh Hpn]].
+  destruct (Hpn Hdt) as [Hpar Hn].
+  exact (eval_refines_spec_lemma _ Hinv Hsh Hn Hpar (c_ns c) Hns c e eq_refl Hsup).
+Qed.
+
+(** two tables satisfying the four hypotheses that show the same tree give the same value -- the
+    same boolean, number, string, the same rows in the same order, or both an error -- for every
+    supported expression *)
+Theorem same_tree_same_value d1 d2 :
+  DocInv d1 -> SpecShape d1 -> ParentsOk d1 -> DocInv d2 -> SpecShape d2 -> ParentsOk d2 ->
+  NamesOk d1 -> same_tree d1 d2 ->
+  forall (c1 c2 : ctx) (e : expr),
+    c_ns c1 = c_ns c2 -> get_position c1 = get_position c2 -> get_size c1 = get_size c2 ->
+    ns_lookup (c_ns c1) None = None -> supported (c_ns c1) e ->
+    value_abs (fst (query d1 e c1)) = value_abs (fst (query d2 e c2)).
+Proof.
+  intros I1 S1 P1 I2 S2 P2 N1 Hs c1 c2 e Hc Hp Hz Hns Hsup.
+  pose proof (names_ok_same_tree d1 d2 Hs N1) as N2.
+  rewrite (eval_refines_spec_lemma d1 I1 S1 N1 P1 (c_ns c1) Hns c1 e eq_refl Hsup).
+  rewrite Hc in Hns, Hsup.
+  rewrite (eval_refines_spec_lemma d2 I2 S2 N2 P2 (c_ns c2) Hns c2 e eq_refl Hsup).
+  rewrite Hc, Hp, Hz. apply spec_query_tree_only. exact Hs.
+Qed.
+
+(** C14, second sentence, for every supported expression: the edited document [s1] of a reachable
+    world and any store [s2] satisfying the invariants whose table shows the same tree *)
+Theorem query_depends_on_tree_only_all F1 F2 merged init ops k s1 s2 :
+  WGood init -> doc_at (run init ops) k = Some s1 ->
+  TreeInv s2 -> OrderInv s2 ->
+  doc_element s1 <> None -> doc_decl s1 = None -> doc_element s2 <> None -> doc_decl s2 = None ->
+  same_tree (xdoc_of_store F1 merged s1) (xdoc_of_store F2 merged s2) ->
+  forall (c1 c2 : ctx) (e : expr),
+    c_ns c1 = c_ns c2 -> get_position c1 = get_position c2 -> get_size c1 = get_size c2 ->
+    ns_lookup (c_ns c1) None = None -> supported (c_ns c1) e ->
+    value_abs (fst (query (xdoc_of_store F1 merged s1) e c1)) =
+    value_abs (fst (query (xdoc_of_store F2 merged s2) e c2)) /\
+    value_abs (fst (query (xdoc_of_store F1 merged s1) e c1)) =
+    spec_query (xdoc_of_store F1 merged s1) (c_ns c1) (get_position c1) (get_size c1) e.
+Proof.
+  intros Hi Hd T2 O2 He1 Hd1 He2 Hd2 Hs c1 c2 e Hc Hp Hz Hns Hsup.
+  destruct (bridge_reachable F1 merged init ops k s1 Hi Hd He1) as [I1 [S1 P1]].
+  destruct (P1 Hd1) as [P1' N1]. split.
+  - apply same_tree_same_value; try assumption.
+    + apply bridge_docinv; assumption.
+    + apply bridge_shape; assumption.
+    + apply bridge_parents; assumption.
+  - exact (eval_refines_spec_lemma _ I1 S1 N1 P1' (c_ns c1) Hns c1 e eq_refl Hsup).
 Qed.
